@@ -53,13 +53,41 @@ def extract(ctx, modname, fname, atomic=ATOMIC, depth=3):
     ref = ctx.repo.mod(modname).func(fname)
     ctx.fn(ref.qualname)
     ex = P.Extractor(ctx.repo, atomic=atomic, inline_depth=depth)
-    return ref, ex, ex.function(ref)
+    return ref, ex, unwrap_delegation(ex.function(ref))
+
+
+def body_function(repo, ref):
+    """the function whose body does the work: `ref` itself, or -- when ref only packs its arguments and returns
+    <module-level function>(...) -- that function (followed up to 3 times).  For rules that read statements."""
+    import ast as _ast
+    for _ in range(3):
+        body = [st for st in ref.node.body if not (isinstance(st, _ast.Expr) and isinstance(st.value, _ast.Constant))]
+        if body and all(isinstance(b, _ast.Assign) and isinstance(b.value, _ast.Call) for b in body[:-1]) and isinstance(body[-1], _ast.Return) and isinstance(body[-1].value, _ast.Call) and isinstance(body[-1].value.func, _ast.Name):
+            nxt = repo.resolve(ref.module, body[-1].value.func.id)
+            if nxt is not None and nxt.module is not None and isinstance(nxt.node, _ast.FunctionDef) and nxt.qualname != ref.qualname:
+                ref = nxt
+                continue
+        break
+    return ref
+
+
+def unwrap_delegation(rets):
+    """a public function that only packs its options and returns <private implementation>(...): the returns of the
+    (inlined) implementation stand for the wrapper's single return"""
+    for _ in range(3):
+        real = [r for r in rets if r.kind == "return"]
+        if len(real) == 1 and len(rets) == 1 and real[0].term[0] == "inl":
+            r = real[0]
+            rets = P.flat_rets([P.Ret(r.term[2], r.conds, r.node, r.kind)])
+        else:
+            break
+    return rets
 
 
 def split_result(ctx, rets, what, assume=None):
     """The SplitResult(...) construction returned on the unsplit=False path: list of 5 arg terms."""
     cands = []
-    for r in rets:
+    for r in P.flat_rets(rets):
         if r.kind != "return":
             continue
         t = r.term
